@@ -15,6 +15,7 @@ const char * prop_rule() {
 }
 
 std::string prop_generate(Tape & t, int size) {
+    gen_allow_q() = true;   // integer signals may carry a fixed-point exponent in their data type
     Program p;
     p.ops.push_back(gen_source(t, 1));
     bool small = t.chance(1, 2);   // <= 8-bit class
